@@ -482,10 +482,10 @@ pub fn c05(ctx: &mut Ctx) {
             0 => 1,
             1 => 2,
             2 => 16,
-            3 => if ctx.is_quick() { 8 } else { 128 },
+            3 => 128,
             _ => rng.range(1, 8) as usize,
         };
-        let max_h = if n_cols > 16 { 4 } else { 7 };
+        let max_h = if n_cols > 16 { 3 } else { 7 };
         let height = rng.range(0, max_h) as u32;
         let n_friendly = draw_friendly(&mut rng, height, &mut ctx.stats);
         if n_cols == 1 {
